@@ -111,6 +111,39 @@ def lib_features(lib):
     return feats, list(table.get('default', []))
 
 
+def documented_features(lib):
+    """feature names the crate documentation tells users to enable: the bullet list under 'following features'
+    in src/lib.rs and the `cargo add --features '...'` lines of src/lib.rs and README.md -> {name: where}"""
+    found = {}
+    for rel in ('src/lib.rs', 'README.md'):
+        try:
+            with open(os.path.join(common.REPO, lib, rel), encoding='utf8', errors='replace') as f:
+                lines = f.read().splitlines()
+        except OSError:
+            continue
+        in_list = False
+        for i, line in enumerate(lines):
+            if rel.endswith('.rs'):
+                if not line.startswith('//!'):
+                    continue
+                line = line[3:]
+            if 'following features' in line:
+                in_list = True
+                continue
+            if in_list and line.strip().startswith('#'):
+                in_list = False
+            m = re.match(r'\s*\*\s+`([A-Za-z0-9_-]+)`', line)
+            if in_list and m:
+                found.setdefault(m.group(1), f'{lib}/{rel}:{i + 1}')
+            if 'cargo add' in line:
+                m = re.search(r"--features[ =]+'([^']+)'|--features[ =]+\"([^\"]+)\"", line)
+                if m:
+                    for name in re.split(r'[ ,]+', (m.group(1) or m.group(2)).strip()):
+                        if name:
+                            found.setdefault(name, f'{lib}/{rel}:{i + 1}')
+    return found
+
+
 def covering(n, t, seedrows=()):
     """greedy t-wise covering array over n binary factors (deterministic)"""
     t = min(t, n)
@@ -194,8 +227,60 @@ def est(lib, feats):
 # ------------------------------------------------------------------------------------------------
 # running cargo
 
+WS = {'manifest': None, 'cwd': None, 'locked': True, 'mode': None}
+
+
+def _toml(d, prefix=''):
+    out, tables = [], []
+    for k, v in d.items():
+        if isinstance(v, dict):
+            tables.append((k, v))
+        else:
+            out.append(f'{k} = {json.dumps(v)}')
+    text = ''
+    if out:
+        text += (f'[{prefix}]\n' if prefix else '') + '\n'.join(out) + '\n\n'
+    for k, v in tables:
+        text += _toml(v, f'{prefix}.{k}' if prefix else k)
+    return text
+
+
+def setup_workspace():
+    """The libraries are checked inside the repository's own workspace with --locked (nothing in the
+    repository can be written).  When its Cargo.lock is missing or stale, a shadow workspace of symlinks
+    to the three library directories is used instead, so that cargo writes its lock file there."""
+    man = os.path.join(common.REPO, 'Cargo.toml')
+    why = 'the repository has no Cargo.lock'
+    if os.path.exists(os.path.join(common.REPO, 'Cargo.lock')):
+        p = subprocess.run(['cargo', 'metadata', '--offline', '--locked', '--format-version', '1', '--manifest-path', man],
+                           env=common.ENV, stdout=subprocess.DEVNULL, stderr=subprocess.PIPE, text=True)
+        if p.returncode == 0:
+            WS.update(manifest=man, cwd=common.REPO, locked=True, mode='workspace of the repository, --locked')
+            return
+        why = 'cargo metadata --locked failed in the repository: ' + p.stderr.strip()[-300:]
+    d = _newdir('ws')
+    with open(man, 'rb') as f:
+        m = tomllib.load(f)
+    ws = dict(m.get('workspace', {}))
+    ws['members'] = list(ORDER)
+    ws.pop('exclude', None)
+    with open(os.path.join(d, 'Cargo.toml'), 'w') as f:
+        f.write(_toml({'workspace': ws}))
+    for lib in ORDER:
+        if not os.path.islink(os.path.join(d, lib)):
+            os.symlink(os.path.join(os.path.realpath(common.REPO), lib), os.path.join(d, lib))
+    if os.path.exists(os.path.join(common.REPO, 'Cargo.lock')):
+        shutil.copy(os.path.join(common.REPO, 'Cargo.lock'), os.path.join(d, 'Cargo.lock'))
+    p = subprocess.run(['cargo', 'metadata', '--offline', '--format-version', '1', '--manifest-path', os.path.join(d, 'Cargo.toml')],
+                       env=common.ENV, stdout=subprocess.DEVNULL, stderr=subprocess.PIPE, text=True)
+    if p.returncode != 0:
+        raise common.Inconclusive(f'no usable workspace for the libraries ({why}); shadow workspace: {p.stderr.strip()[-600:]}')
+    WS.update(manifest=os.path.join(d, 'Cargo.toml'), cwd=d, locked=False, mode=f'shadow workspace of symlinks ({why})')
+    common.log('[c19] ' + WS['mode'])
+
+
 def check_cmd(lib, feats, default=False):
-    cmd = ['cargo', 'check', '--offline', '--locked', '--manifest-path', os.path.join(common.REPO, 'Cargo.toml'), '-p', lib]
+    cmd = ['cargo', 'check', '--offline'] + (['--locked'] if WS['locked'] else []) + ['--manifest-path', WS['manifest'], '-p', lib]
     if not default:
         cmd.append('--no-default-features')
         if feats:
@@ -237,6 +322,9 @@ def classify(rc, stderr):
         return 'infra', 'cargo timed out'
     if isinstance(rc, int) and rc < 0:
         return 'infra', f'cargo killed by signal {-rc}'
+    m = re.search(r"error: .*(does not contain (this|these) features?|does not have (the|these) features?|none of the selected packages contains? (this|these) features?)[^\n]*", stderr)
+    if m:
+        return 'nofeature', m.group(0)[:200]
     if INFRA_PAT.search(stderr):
         return 'infra', (INFRA_PAT.search(stderr).group(0) + ': ' + stderr[-600:])
     m = re.search(r'could not compile `([\w-]+)`', stderr)
@@ -249,7 +337,7 @@ def classify(rc, stderr):
         if not loc:
             continue
         path = loc.group(1)
-        ap = os.path.realpath(path if os.path.isabs(path) else os.path.join(common.REPO, path))
+        ap = os.path.realpath(path if os.path.isabs(path) else os.path.join(WS['cwd'] or common.REPO, path))
         if not ap.startswith(root + os.sep):
             continue                                      # an error inside a registry crate is not the repository's
         code = re.match(r'error\[(E\d+)\]', head)
@@ -290,6 +378,7 @@ class Task:
             s.cost, s.mem = 400, 3.0
         s.rc = s.err = s.wall = s.cls = s.sig = s.binary = None
         s.retried = False
+        s.documented_at = None
 
     def label(s):
         if s.kind == 'driver':
@@ -318,7 +407,7 @@ class Task:
             for sub in ('deps', 'build', '.fingerprint', 'incremental'):
                 shutil.rmtree(os.path.join(d, 'debug', sub), ignore_errors=True)
             return
-        s.rc, s.err, s.wall = run_cargo(s.cmd(), common.REPO, target_dir)
+        s.rc, s.err, s.wall = run_cargo(s.cmd(), WS['cwd'], target_dir)
         s.cls, s.sig = classify(s.rc, s.err)
         prune(target_dir, s.lib)
 
@@ -414,6 +503,13 @@ def judge_builds(chk, tasks, feats_of, condition=None):
             elif t.cls == 'infra':
                 chk.count('build_infra')
                 chk.inconclusive.append(f'{t.label()}: {str(t.sig)[:300]}')
+            elif t.cls == 'nofeature':
+                obs = {'check': 'documented-feature', 'library': lib, 'feature': ','.join(t.feats),
+                       'error_msg': re.sub(r"'[^']*'", "'<pkg>'", str(t.sig))[:120]}
+                r = chk.violation(obs, {'kind': 'build', 'library': lib, 'features': list(t.feats), 'default_configuration': False,
+                                        'documented_at': t.documented_at, 'command': ' '.join(t.cmd()), 'exit': t.rc,
+                                        'diagnostics': (t.err or '')[-2000:], 'rerun': 'python3 check.py C19 --replay <this file>'})
+                chk.count('documented_feature_' + r)
             else:
                 groups.setdefault((t.sig['error_code'], t.sig['error_file'], t.sig['error_msg']), []).append(t)
         for (code, file, msg), ts in groups.items():
@@ -582,6 +678,7 @@ def replay_run(chk, rp):
         feats_of = {lib: lib_features(lib)[0]}
         t = Task('check', lib, rp['features'], default=rp.get('default_configuration', False))
         t.eff = tuple(sorted(t.feats))
+        t.documented_at = rp.get('documented_at')
         run_pool([t], nw)
         if t.cls == 'compile':
             common.log('\n\n'.join(error_blocks(t.err))[:4000])
@@ -612,12 +709,13 @@ def run(tier, replay=None):
     _install_cleanup()
     os.makedirs(C19_DIR, exist_ok=True)
     _sweep_stale()
+    setup_workspace()
     if replay:
         replay_run(chk, json.load(open(replay)))
         return chk.finish()
 
     rng = random.Random(common.seed() * 7919 + 19)
-    tasks, feats_of, covered = [], {}, {}
+    tasks, feats_of, covered, documented = [], {}, {}, {}
     for lib in ORDER:
         feats, default = lib_features(lib)
         feats_of[lib] = feats
@@ -630,6 +728,15 @@ def run(tier, replay=None):
         t = Task('check', lib, default, default=True)
         t.eff = tuple(sorted(default))
         tasks.append(t)
+        docs = documented_features(lib)
+        documented[lib] = sorted(docs)
+        for name, where in sorted(docs.items()):
+            if name not in feats and name not in IGNORED.get(lib, ()):
+                # documented, but not a feature of the manifest: let cargo say what happens when a user follows the documentation
+                t = Task('check', lib, (name,))
+                t.eff = (name,)
+                t.documented_at = where
+                tasks.append(t)
     dtasks = [Task('driver', None, f, name=n) for n, f in driver_configs(tier)]
 
     # the vectors first (multiprocessing must not fork while the worker threads run)
@@ -671,13 +778,13 @@ def run(tier, replay=None):
         per_lib[lib] = {'features': feats_of[lib], 'configurations_checked': len(mine),
                         'distinct_feature_sets': len({t.eff for t in mine}),
                         'built': sum(1 for t in mine if t.cls == 'ok'), 'compile_errors': sum(1 for t in mine if t.cls == 'compile'),
-                        'undecided': sum(1 for t in mine if t.cls == 'infra'),
+                        'undecided': sum(1 for t in mine if t.cls == 'infra'), 'documented_but_unknown_to_cargo': [','.join(t.feats) for t in mine if t.cls == 'nofeature'],
                         'cargo_seconds_total': round(sum(t.wall or 0 for t in mine), 1),
                         'cargo_seconds_max': round(max((t.wall or 0) for t in mine), 1),
-                        'covered': covered[lib]}
+                        'covered': covered[lib], 'features_named_in_documentation': documented[lib]}
     chk.extra['exhaustive'] = all('NOT exhaustive' not in covered[lib] and 'not crossed' not in covered[lib] for lib in ORDER)
     chk.extra['build_half'] = {
-        'per_library': per_lib, 'workers': nworkers, 'wall_s': round(build_wall, 1),
+        'per_library': per_lib, 'workers': nworkers, 'wall_s': round(build_wall, 1), 'workspace': WS['mode'],
         'excluded_implicit_features': {k: sorted(v) for k, v in IGNORED.items()},
         'configurations': [{'library': t.lib, 'features': ','.join(t.feats) if not t.default else '(default) ' + ','.join(t.feats),
                             'result': t.cls, 'wall_s': round(t.wall or 0, 1), **({'retried': True} if t.retried else {})} for t in tasks]}
